@@ -88,6 +88,8 @@ def mk_tb_equals(rows, cols, la, lb):
 
 for la, lb in [(((1, 1), (1, 1)), ((2, 2),)), (((2, 2),), ((2, 1), (1, 1))), (((1, 1), (2, 1)), ((1, 1), (1, 1)))]:
     _add(mk_tb_equals(1, 2, la, lb))
+for la, lb in [(((2, 2), (1, 1)), ((2, 2), (1, 1))), (((1, 1), (2, 2)), ((1, 1), (2, 2))), (((2, 2), (2, 1)), ((2, 3),))]:
+    _add(mk_tb_equals(1, 3, la, lb)).timeout = 240
 for la in layouts.compositions(2):
     for lb in layouts.compositions(2):
         c = mk_tb_equals(2, 2, la, lb)
